@@ -82,9 +82,21 @@ def _job(vec):
     cid.read("cid", [["D", "Format", "delimited"]] + [field_row(f) for f in vec["fields"]])
     what = "%s DDL for fields %s" % (DIALECT[vec["dialect"]], [field_row(f)[1:] for f in vec["fields"]])
     try:
-        statement = sql.SqlFactory(cid, "some_table", sql.SQL_NAME_TO_DIALECT_MAP[DIALECT[vec["dialect"]]]).create_table_statement()
+        dialect = sql.SQL_NAME_TO_DIALECT_MAP[DIALECT[vec["dialect"]]]
+        factory = sql.SqlFactory(cid, "some_table", dialect)
+        statement = factory.create_table_statement()
+        # the statement is a function of CID and dialect: asking the same factory again, or after its fields have been
+        # looked at, gives the same statement
+        field_count = len(list(factory.sql_fields()))
+        again = factory.create_table_statement()
+        other = sql.SqlFactory(cid, "some_table", dialect)
+        list(other.sql_fields())
+        after_fields = other.create_table_statement()
     except Exception as error:  # noqa
         return ["%s: create_table_statement fails with %s: %s" % (what, type(error).__name__, error)], None
+    if again != statement or after_fields != statement or field_count != len(vec["fields"]):
+        return ["%s: asked again the factory answers %r (sql_fields() has %d items), after sql_fields() a fresh factory answers %r, "
+                "but the first answer was %r" % (what, again, field_count, after_fields, statement)], None
     columns = parse(statement)
     if columns is None:
         return ["%s: statement cannot be parsed back: %r" % (what, statement)], None
